@@ -323,13 +323,22 @@ func TestVF_C06(t *testing.T) {
 
 		// ---- deviations judged at the user's ConstructCredential
 		rejectAtUser := func(what string, b *CredentialBuilder, msg2 []byte, in []*big.Int) bool {
-			cr, psig, err := c06Construct(b, msg2, in)
 			rec.Case("msg2/"+what, true, "m2|"+cfgClass+"|"+what)
-			if psig != "" {
-				return rec.Fail(rt, psig+":msg2:"+stripDigits(what), det("msg2 "+what))
+			m := &IssueSignatureMessage{}
+			if err := json.Unmarshal(msg2, m); err != nil {
+				return true // refused by the decoder
 			}
-			if err == nil || cr != nil {
-				return rec.Fail(rt, "deviation-yields-credential:"+stripDigits(what), det("msg2 "+what))
+			// the received message object is presented twice (a holder that retries after a failure)
+			for _, tag := range []string{"", ":second-attempt-with-the-same-message-object"} {
+				var cr *Credential
+				var err error
+				psig := vfh.Guard(func() { cr, err = b.ConstructCredential(m, append([]*big.Int{}, in...)) })
+				if psig != "" {
+					return rec.Fail(rt, psig+":msg2:"+stripDigits(what)+tag, det("msg2 "+what))
+				}
+				if err == nil || cr != nil {
+					return rec.Fail(rt, "deviation-yields-credential:"+stripDigits(what)+tag, det("msg2 "+what))
+				}
 			}
 			return true
 		}
@@ -380,6 +389,20 @@ func TestVF_C06(t *testing.T) {
 				d[len(d)/2] ^= 0x01
 				m.NonRevocationWitness.SignedAccumulator.Data = d
 			})
+			// a self-consistent forged witness (u', nu' = u'^e) under an accumulator message that is
+			// not signed by the issuer (signed with another key; counter field set to the issuer's)
+			if okp := getKey("toyrev", (int(c.kp.Pk.Counter)+3)%8); okp.Sk.N.Cmp(c.kp.Sk.N) != 0 && run.world != nil {
+				m2devs["witness-forged-under-accumulator-not-signed-by-issuer"] = edit2(func(m *IssueSignatureMessage) {
+					w := m.NonRevocationWitness
+					u := new(big.Int).Mod(new(big.Int).Mul(w.U, pk.S), pk.N)
+					facc := &revocation.Accumulator{Nu: new(big.Int).Exp(u, w.E, pk.N), Index: run.world.acc.Index, Time: run.world.acc.Time + 1, EventHash: run.world.acc.EventHash}
+					fs, err := facc.Sign(okp.Sk)
+					if err != nil {
+						return
+					}
+					m.NonRevocationWitness = &revocation.Witness{U: u, E: w.E, SignedAccumulator: &revocation.SignedAccumulator{Data: fs.Data, PKCounter: c.kp.Pk.Counter}}
+				})
+			}
 			m2devs["witness.pk-counter+1"] = edit2(func(m *IssueSignatureMessage) { m.NonRevocationWitness.SignedAccumulator.PKCounter++ })
 			// a foreign (valid) witness of the same accumulator: its e is not an attribute of this credential
 			if w2, err := run.world.newWitness(); err == nil {
